@@ -97,21 +97,89 @@ def run_one(data):
     return out
 
 
-def confirm_resource(data, ctx):
+def confirm_resource(data, ctx, limit_s=300):
     """Re-run one input alone in a fresh process; True if the excess reproduces."""
     p = os.path.join(ctx.scratch, f"confirm-{case_hash(data.hex())}.bin")
     with open(p, "wb") as fh:
         fh.write(data)
     code = (
         "import sys,resource,time; sys.path.insert(0, %r); from vf import boot; boot.import_sut(False); from vf.checks import c17; "
-        "c17.ALARM_S = 300; d=open(sys.argv[1],'rb').read(); r=c17.run_one(d); print(r[0])" % boot.VERIF_DIR
+        "c17.ALARM_S = %d; c17._limit_memory(); d=open(sys.argv[1],'rb').read(); r=c17.run_one(d); print(r[0])" % (boot.VERIF_DIR, limit_s)
     )
     env = dict(os.environ, VERIF_REPO=boot.REPO)
     try:
-        r = subprocess.run([sys.executable, "-c", code, p], capture_output=True, text=True, timeout=420, env=env)
+        r = subprocess.run([sys.executable, "-c", code, p], capture_output=True, text=True, timeout=limit_s + 120, env=env)
+        if r.returncode != 0 and not r.stdout.strip():
+            return True  # the interpreter died (e.g. allocation failure inside an extension module)
         return r.stdout.strip().splitlines()[-1] in ("slow", "memory") if r.stdout.strip() else True
     except subprocess.TimeoutExpired:
         return True
+
+
+def child_main(directory, start):
+    """Runs in a fresh interpreter: evaluate inputs <directory>/in-<i>.bin from `start` on, one result line per input."""
+    _limit_memory()
+    sys.unraisablehook = lambda *a: None
+    n = len([f for f in os.listdir(directory) if f.startswith("in-")])
+    with open(os.path.join(directory, "results.jsonl"), "a") as res:
+        for i in range(start, n):
+            with open(os.path.join(directory, "progress"), "w") as fh:
+                fh.write(str(i))
+            with open(os.path.join(directory, f"in-{i}.bin"), "rb") as fh:
+                data = fh.read()
+            outcome, detail = run_one(data)
+            res.write(json.dumps({"i": i, "outcome": outcome, "detail": detail}) + "\n")
+            res.flush()
+
+
+def isolated_batch(ctx, datas, per_case_timeout=45):
+    """Evaluate inputs in a separate interpreter that is killed and restarted when one input hangs or kills it (a parse stuck in a
+    C extension cannot be interrupted from inside). Returns a list of (outcome, detail) aligned with `datas`."""
+    d = ctx.tmpdir("iso")
+    for i, data in enumerate(datas):
+        with open(os.path.join(d, f"in-{i}.bin"), "wb") as fh:
+            fh.write(data)
+    out = [None] * len(datas)
+    start = 0
+    code = "import sys; sys.path.insert(0, %r); from vf import boot; boot.import_sut(%r); from vf.checks import c17; c17.child_main(%r, int(sys.argv[1]))" % (
+        boot.VERIF_DIR, bool(boot.guard_state()), d)
+    env = dict(os.environ, VERIF_REPO=boot.REPO)
+    resfile = os.path.join(d, "results.jsonl")
+    while start < len(datas):
+        child = subprocess.Popen([sys.executable, "-c", code, str(start)], env=env, stdout=subprocess.DEVNULL, stderr=subprocess.DEVNULL)
+        last_change = time.time()
+        seen = 0
+        while True:
+            time.sleep(0.2)
+            lines = open(resfile).read().splitlines() if os.path.exists(resfile) else []
+            if len(lines) > seen:
+                seen = len(lines)
+                last_change = time.time()
+            rc = child.poll()
+            if rc is not None:
+                break
+            if time.time() - last_change > per_case_timeout:
+                child.kill()
+                child.wait()
+                rc = "killed"
+                break
+        lines = open(resfile).read().splitlines() if os.path.exists(resfile) else []
+        for ln in lines:
+            r = json.loads(ln)
+            out[r["i"]] = (r["outcome"], tuple(r["detail"]) if isinstance(r["detail"], list) else r["detail"])
+        done = max([json.loads(ln)["i"] for ln in lines], default=start - 1)
+        if done + 1 >= len(datas) and rc == 0:
+            break
+        # the input after the last finished one hung (killed) or killed the interpreter
+        bad = done + 1
+        if bad < len(datas) and out[bad] is None:
+            out[bad] = ("slow", f"no result after {per_case_timeout} s wall for {len(datas[bad])} bytes (interpreter had to be killed)") if rc == "killed" else \
+                       ("crash", f"the interpreter died with status {rc} while parsing {len(datas[bad])} bytes")
+        start = bad + 1
+    import shutil
+
+    shutil.rmtree(d, ignore_errors=True)
+    return out
 
 
 def judge(data, acc, ctx, nt_key=None, classes=(), sample=None):
@@ -191,7 +259,8 @@ def reps():
         ("bstr0", b""), ("bstr2", b"\x01\x02"), ("bstr16", bytes(16)), ("tstr0", ""), ("tstr", "text"), ("tstr-name", "suit-manifest"),
         ("arr0", []), ("arr1", [0]), ("arr3", [1, 2, 3]), ("arr-nested", [[[]]]), ("map0", cb.Pairs()), ("map1", cb.Pairs([(1, 2)])), ("map-str", cb.Pairs([("a", b"b")])),
         ("map-arrkey", cb.Pairs([([1], 2)])), ("tag107", cb.Tag(107, cb.Pairs())), ("tag18", cb.Tag(18, [])), ("tag96", cb.Tag(96, [b"", cb.Pairs(), None, []])),
-        ("tag-other", cb.Tag(1000, 0)), ("tag-date", cb.Tag(0, "x")), ("tag-regex", cb.Tag(35, "(")), ("null", None), ("true", True), ("false", False), ("float", 1.5),
+        ("tag-other", cb.Tag(1000, 0)), ("tag-date", cb.Tag(0, "x")), ("tag-regex", cb.Tag(35, "(")), ("tag-shareable", cb.Tag(28, [1])), ("tag-sharedref", cb.Tag(29, 0)),
+        ("tag-share-pair", [cb.Tag(28, [cb.Tag(28, [0]), cb.Tag(29, 1), cb.Tag(29, 1)]), cb.Tag(29, 0), cb.Tag(29, 0)]), ("tag-self-ref", cb.Tag(28, [cb.Tag(29, 0)])), ("null", None), ("true", True), ("false", False), ("float", 1.5),
         ("nan", float("nan")), ("simple0", cb.Simple(0)), ("undefined", R(b"\xf7")),
         ("w-uint", cb.enc(5)), ("w-arr", cb.enc([1, 2])), ("w-map", cb.enc(cb.Pairs([(1, 2)]))), ("w-tstr", cb.enc("x")), ("w-null", cb.enc(None)), ("w-tag107", cb.enc(cb.Tag(107, cb.Pairs()))),
         ("w-w", cb.enc(cb.enc([]))),
@@ -295,6 +364,21 @@ def nesting_cases(depths):
         for _ in range(d):
             w = cb.enc(w)
         yield minimal_env(seq_bytes=w), f"bstr-wraps^{d}"
+    for d in [x for x in depths if x <= 400]:
+        # value sharing (tags 28/29): every level refers twice to the previous one - 2^d items behind ~9*d bytes
+        for place in ("components", "manifest-member", "payload"):
+            items = [b"\xd8\x1c" + cb.enc([0])]
+            for i in range(d):
+                items.append(b"\xd8\x1c\x82" + (b"\xd8\x1d" + cb.enc(i)) * 2)
+            laughs = cb.head(4, len(items)) + b"".join(items)
+            if place == "components":
+                yield minimal_env(comps=cb.Raw(laughs)), f"shared-references/{place}^{d}"
+            elif place == "manifest-member":
+                yield minimal_env(seq_bytes=laughs), f"shared-references/{place}^{d}"
+            else:
+                yield minimal_env(extra_env=[("#p", cb.Raw(laughs))]), f"shared-references/{place}^{d}"
+        # a shared value that contains a reference to itself
+        yield minimal_env(comps=cb.Raw(b"\xd8\x1c\x81\xd8\x1d\x00")), f"shared-references/cycle^{d}"
     for d in [x for x in depths if x <= 40]:
         e = minimal_env()
         for i in range(d):
@@ -470,8 +554,30 @@ def run_shard(ctx, spec):
     elif kind == "nesting":
         depths = [10, 100, 150, 400, 1000, 3000] if not ctx.thorough else [10, 50, 100, 150, 200, 400, 1000, 3000, 5000]
         depths += [12, 16, 20, 24, 30, 40]
-        for data, name in nesting_cases(sorted(set(depths))):
-            _do(acc, ctx, "nesting", data, ("nesting", name), ["nesting", f"nest:{name.split('^')[0]}"], {"nesting": name})
+        cases = list(nesting_cases(sorted(set(depths))))
+        results = isolated_batch(ctx, [d for d, _ in cases])
+        confirmed = set()
+        for (data, name), res in zip(cases, results):
+            outcome, detail = res if res else ("slow", "not evaluated")
+            fam = name.split("^")[0]
+            acc.case(nt_key=("nesting", name), classes=["nesting", f"nest:{fam.split('/')[0]}", f"outcome:{outcome}"], sample={"nesting": name, "bytes": len(data), "outcome": outcome} if (hash(name) & 7) == 0 else None,
+                     sample_key=f"nest/{fam}")
+            if outcome == "escape":
+                b = f"{detail[0]}@{detail[1]}"
+                if not any(f["bucket"] == b for f in acc.failures):
+                    acc.fail("nesting", {"input": data.hex(), "nesting": name}, f"parser raised {detail[0]} ({detail[2]}) in {detail[1]} for the {len(data)}-byte input '{name}'", "a model, ValueError or SUITError", bucket=b)
+            elif outcome in ("slow", "memory", "crash"):
+                b = f"resource:{fam}"
+                if b in confirmed or any(f["bucket"] == b for f in acc.failures):
+                    acc.note("resource_excess_same_family")
+                    continue
+                confirmed.add(b)
+                # reproduce alone in a fresh interpreter (the smallest offending input of the family only)
+                if confirm_resource(data, ctx, limit_s=150):
+                    acc.fail("nesting", {"input": data.hex(), "nesting": name}, f"'{name}' ({len(data)} bytes): {detail}; reproduced alone in a fresh interpreter",
+                             "time and memory proportional to the input size", bucket=b)
+                else:
+                    acc.note("inconclusive_resource")
     elif kind == "scaling":
         name, fn, sizes = scaling_families()[spec["family"]]
         try:
